@@ -171,7 +171,7 @@ def gen_case(rng: random.Random, tier: str) -> dict:
         for old_, new_ in ren.items():
             f = f.replace(old_, new_)
         plain_name = ren["body_mass"]
-    return {"plain_name": plain_name, "frame": frame, "formula": f, "output": rng.choice(["pandas", "numpy", "sparse"]), "follow": follow,
+    return {"prelude": rng.random() < 0.2, "plain_name": plain_name, "frame": frame, "formula": f, "output": rng.choice(["pandas", "numpy", "sparse"]), "follow": follow,
             "sig": [used, sorted(len(t) for t in terms), f.count("|") + 2 * f.count("~"), plain]}
 
 
@@ -194,6 +194,23 @@ def judge(case) -> Outcome:
     f = case["formula"]
     tag = f"{f!r} output={case['output']}"
     with quiet():
+        if case.get("prelude"):
+            # an earlier, unrelated build of the same process whose context shadows the built-in transforms with plain functions
+            # of the same names (context names legitimately hide transforms): it must leave no trace in later builds
+            import types
+
+            def plain(v, *a, **k):
+                return np.arange(len(v), dtype=float)
+
+            names_ = ("center", "scale", "standardize", "poly", "bs", "cr", "cs", "cc", "hashed", "C", "log", "exp")
+            shadow = {nm: plain for nm in names_}
+            shadow["ft"] = types.SimpleNamespace(**{nm: plain for nm in names_})
+            try:
+                model_matrix(" + ".join(f"{nm}(x)" for nm in names_) + " + ft.center(x) + ft.scale(x) + ft.poly(x) + ft.bs(x) + {center(x) + 1}",
+                             df, context=shadow)
+                out.see("prelude_run")
+            except Exception as e:  # noqa: BLE001
+                out.see("prelude_failed:" + type(e).__name__)
         try:
             mm = model_matrix(f, df, output=case["output"], context=CTX)
         except Exception as e:  # noqa: BLE001
